@@ -64,24 +64,29 @@ def union_vocab(*grammars):
     return {k: i + 1 for i, k in enumerate(order)}
 
 
-def lang_diff(p1, s1, p2, s2, vocab, N, timeout_ms=120000):
+def lang_diff(p1, s1, p2, s2, vocab, N, timeout_ms=120000, also_nts=()):
     """Returns ('unsat', None) if L_N equal, ('sat', tokens) with a distinguishing string,
-    ('unknown', reason) otherwise.  Also returns solver time."""
+    ('unknown', reason) otherwise.  Also returns solver time.
+    also_nts: non-terminals (present in both grammars) whose own languages are compared as well;
+    a difference is returned as ('sat', tokens, nt)."""
     toks, n, dom = C.token_vars(N, max(1, len(vocab)))
     L1 = C.Lang(p1, s1, vocab, toks, n, N)
     L2 = C.Lang(p2, s2, vocab, toks, n, N)
     s = z3.Solver()
     s.set("timeout", timeout_ms)
     s.add(dom)
-    s.add(z3.Xor(L1.sentence(), L2.sentence()))
     t0 = time.time()
-    r = s.check()
-    dt = time.time() - t0
-    if r == z3.unsat:
-        return "unsat", None, dt
-    if r == z3.sat:
-        return "sat", C.model_tokens(s.model(), toks, n), dt
-    return "unknown", s.reason_unknown(), dt
+    for nt in [None] + list(also_nts):
+        s.push()
+        s.add(z3.Xor(L1.sentence(nt or s1), L2.sentence(nt or s2)))
+        r = s.check()
+        if r == z3.sat:
+            w = C.model_tokens(s.model(), toks, n)
+            return "sat", (w if nt is None else (w, nt)), time.time() - t0
+        if r != z3.unsat:
+            return "unknown", s.reason_unknown(), time.time() - t0
+        s.pop()
+    return "unsat", None, time.time() - t0
 
 
 def render_tokens(vocab, toks):
